@@ -2,6 +2,7 @@ SPECIFICATION TSpec
 CONSTANTS
   KD = 4096
   ResetFastOnClear = TRUE
+  FastPathAutoClean = TRUE
   TruncateChunkOnClear = TRUE
 INVARIANT Emit
 POSTCONDITION Consumed
